@@ -338,6 +338,16 @@ func vcTags(img vcImage) []string {
 	}
 	for ch, ps := range ptrs {
 		for _, p := range ps {
+			if p.file == 0 && p.lo == 0 && p.hi == 0 && p.siz == 0 {
+				// an all-zero record: the file was extended by Truncate and the record was
+				// never written. Legitimate only while that WriteAt is still pending.
+				pendingWrite := strings.HasPrefix(img.What, "truncate "+ch+"/index.domain") ||
+					(strings.HasPrefix(img.What, "writeat "+ch+"/index.domain") && strings.Contains(img.What, "[torn"))
+				if !pendingWrite {
+					tags["index-hole"] = true
+				}
+				continue
+			}
 			f, ok := img.Files[fmt.Sprintf("%s/%d.domain", ch, p.file)]
 			if !ok || int(p.off)+int(p.siz) > len(f) {
 				tags["gc-swap"] = true
@@ -371,6 +381,10 @@ func vcTags(img vcImage) []string {
 				tags["data-ahead"] = true
 			}
 		}
+	}
+	if tags["index-hole"] {
+		// not one of the named windows of the code as it is: never attributed to them
+		return []string{"index-hole"}
 	}
 	var out []string
 	for t := range tags {
@@ -479,13 +493,16 @@ func (r *vsRunner) vcCheckImage(img vcImage, o *vcOracle, inProgress *vsStep, de
 				return &vcFinding{Kind: "durable data lost", Exp: fmt.Sprintf("channel %s sample t=%d id=%d (committed with index persistence / closed writer)", ch, s.T, s.ID), Act: "missing after reopen"}
 			}
 		}
-		if ch != "I" {
-			for g := range got {
-				if !o.may[ch][g] {
-					return &vcFinding{Kind: "uncommitted data visible", Act: fmt.Sprintf("channel %s returned sample t=%d id=%d that was never committed", ch, g.T, g.ID)}
+		{
+			if ch != "I" {
+				for g := range got {
+					if !o.may[ch][g] {
+						return &vcFinding{Kind: "uncommitted data visible", Act: fmt.Sprintf("channel %s returned sample t=%d id=%d that was never committed", ch, g.T, g.ID)}
+					}
 				}
 			}
-			// per-session prefix consistency
+			// per-session prefix consistency (for the index channel `got` was mapped to the
+			// committed identities at those times above)
 			for _, s := range o.sessions {
 				if s.deleted || !vcHas(s.chans, ch) {
 					continue
@@ -783,8 +800,20 @@ func vcReplay(idx int, hist []vsStep, c vsConc, maxT int, stats *vcCrashStats, m
 		}
 		from = len(rec.images)
 		delRange := o.before(st)
-		if c.Persist == 2 && st.A == "write" && rnd.Intn(2) == 0 {
-			time.Sleep(1200 * time.Microsecond) // lets the 1 ms persist interval elapse
+		if c.Persist == 2 && st.A == "write" {
+			// which auto-commits persist the index: pattern 0 = none before Close, 1 = every
+			// write except the first of a session, 2 = coin flips
+			firstOfSession := i > 0 && hist[i-1].A == "open"
+			sleep := false
+			switch (idx + int(c.FileCap)) % 3 {
+			case 1:
+				sleep = !firstOfSession
+			case 2:
+				sleep = rnd.Intn(2) == 0
+			}
+			if sleep {
+				time.Sleep(6 * time.Millisecond) // lets the 5 ms persist interval elapse
+			}
 		}
 		var out string
 		if st.A == "reopen" {
@@ -820,6 +849,17 @@ func vcReplay(idx int, hist []vsStep, c vsConc, maxT int, stats *vcCrashStats, m
 		later = append(later, deferred{from: from, to: len(rec.images), opIdx: i, st: &stc, delRange: delRange, o: o.clone()})
 		o.advance(st, c)
 	}
+	if os.Getenv("VERIF_DEBUG") == "2" {
+		for k, img := range rec.images {
+			b := img.Files["1/index.domain"]
+			line := fmt.Sprintf("img %d %q idx1(%dB):", k, img.What, len(b))
+			for i := 0; i+26 <= len(b); i += 26 {
+				line += fmt.Sprintf(" [%s,%s) f%d off%d size%d;", c.abs(telem.TimeStamp(telem.ByteOrder.Uint64(b[i:i+8]))), c.abs(telem.TimeStamp(telem.ByteOrder.Uint64(b[i+8:i+16]))),
+					telem.ByteOrder.Uint16(b[i+16:i+18]), telem.ByteOrder.Uint32(b[i+18:i+22]), telem.ByteOrder.Uint32(b[i+22:i+26]))
+			}
+			fmt.Println(line)
+		}
+	}
 	for _, d := range later {
 		_ = check(d)
 	}
@@ -838,6 +878,12 @@ func TestVerifCrashEnum(t *testing.T) {
 	if s := os.Getenv("VERIF_CONC"); s != "" {
 		fixed = &vsConc{}
 		if err := json.Unmarshal([]byte(s), fixed); err != nil {
+			t.Fatal(err)
+		}
+	}
+	var forced []vsConc
+	if s := os.Getenv("VERIF_CONCS"); s != "" {
+		if err := json.Unmarshal([]byte(s), &forced); err != nil {
 			t.Fatal(err)
 		}
 	}
@@ -864,12 +910,23 @@ func TestVerifCrashEnum(t *testing.T) {
 					results <- vcResult{I: j.i, R: "inconclusive"}
 					continue
 				}
-				c := vsConcFromSeed(seed, j.i*7)
+				concs := []vsConc{vsConcFromSeed(seed, j.i*7)}
 				if fixed != nil {
-					c = *fixed
+					concs = []vsConc{*fixed}
 				}
-				stats.histories.Add(1)
-				results <- vcReplay(j.i, hist, c, maxT, stats, maxImages)
+				if len(forced) > 0 {
+					// scenario plans: every history under each forced concretisation
+					concs = nil
+					for k, f := range forced {
+						c := vsConcFromSeed(seed, j.i*7+k)
+						c.Persist, c.FileCap = f.Persist, f.FileCap
+						concs = append(concs, c)
+					}
+				}
+				for _, c := range concs {
+					stats.histories.Add(1)
+					results <- vcReplay(j.i, hist, c, maxT, stats, maxImages)
+				}
 			}
 		}()
 	}
